@@ -653,6 +653,10 @@ class StyleElement(TTMLElement):
       try:
 
         model_prop, model_value = prop.to_model(style_ctx, xml_elem)
+
+        if not model_prop.validate(model_value):
+          raise ValueError("Invalid style property value")
+
         style_ctx.styles[model_prop] = model_value
 
       except ValueError:
